@@ -15,6 +15,7 @@ import RpmVerif.Driver.C12
 import RpmVerif.Driver.C14
 import RpmVerif.Driver.C08
 import RpmVerif.Driver.C11
+import RpmVerif.Driver.C02
 /-! Driver: one request per line in (`<op> <args…> => <impl observation>`), one answer per line
 out (`<model observation> | <spec verdict> | <branch label>`).
 Each property contributes `Driver/Cxx.lean` with `ops : List String` and
@@ -38,7 +39,8 @@ def handlers : List (List String × (String → List String → String → Strin
   (C12.ops, C12.handle),
   (C14.ops, C14.handle),
   (C08.ops, C08.handle),
-  (C11.ops, C11.handle)
+  (C11.ops, C11.handle),
+  (C02.ops, C02.handle)
 ]
 
 def dispatch (line : String) : String :=
